@@ -40,6 +40,7 @@ Record transfer := mkT {
   t_kind : kind;
   t_nsubs : nat;            (* number of subscribers *)
   t_raises : bool;          (* the last subscriber's on_done raises *)
+  t_qfail : bool;           (* the first subscriber's on_queued raised (construction failure) *)
   t_registered : bool;      (* coordinator appended to _future_coordinators *)
   t_exc : bool;             (* coordinator._exception set by the except-path;
                                then there is no CRT request and no crt future *)
@@ -60,28 +61,28 @@ Definition init (n : Z) : state := mkS n 0 [] [].
 
 (** Field updates. *)
 Definition set_registered (t : transfer) (v : bool) : transfer :=
-  mkT (t_id t) (t_kind t) (t_nsubs t) (t_raises t) v (t_exc t) (t_crt t)
+  mkT (t_id t) (t_kind t) (t_nsubs t) (t_raises t) (t_qfail t) v (t_exc t) (t_crt t)
       (t_on_done_ran t) (t_subs_done t) (t_releases t) (t_after t) (t_temp t).
 Definition set_exc (t : transfer) (v : bool) : transfer :=
-  mkT (t_id t) (t_kind t) (t_nsubs t) (t_raises t) (t_registered t) v (t_crt t)
+  mkT (t_id t) (t_kind t) (t_nsubs t) (t_raises t) (t_qfail t) (t_registered t) v (t_crt t)
       (t_on_done_ran t) (t_subs_done t) (t_releases t) (t_after t) (t_temp t).
 Definition set_crt (t : transfer) (v : option outcome) : transfer :=
-  mkT (t_id t) (t_kind t) (t_nsubs t) (t_raises t) (t_registered t) (t_exc t) v
+  mkT (t_id t) (t_kind t) (t_nsubs t) (t_raises t) (t_qfail t) (t_registered t) (t_exc t) v
       (t_on_done_ran t) (t_subs_done t) (t_releases t) (t_after t) (t_temp t).
 Definition set_on_done_ran (t : transfer) (v : bool) : transfer :=
-  mkT (t_id t) (t_kind t) (t_nsubs t) (t_raises t) (t_registered t) (t_exc t) (t_crt t)
+  mkT (t_id t) (t_kind t) (t_nsubs t) (t_raises t) (t_qfail t) (t_registered t) (t_exc t) (t_crt t)
       v (t_subs_done t) (t_releases t) (t_after t) (t_temp t).
 Definition set_subs_done (t : transfer) (v : nat) : transfer :=
-  mkT (t_id t) (t_kind t) (t_nsubs t) (t_raises t) (t_registered t) (t_exc t) (t_crt t)
+  mkT (t_id t) (t_kind t) (t_nsubs t) (t_raises t) (t_qfail t) (t_registered t) (t_exc t) (t_crt t)
       (t_on_done_ran t) v (t_releases t) (t_after t) (t_temp t).
 Definition set_releases (t : transfer) (v : nat) : transfer :=
-  mkT (t_id t) (t_kind t) (t_nsubs t) (t_raises t) (t_registered t) (t_exc t) (t_crt t)
+  mkT (t_id t) (t_kind t) (t_nsubs t) (t_raises t) (t_qfail t) (t_registered t) (t_exc t) (t_crt t)
       (t_on_done_ran t) (t_subs_done t) v (t_after t) (t_temp t).
 Definition set_after (t : transfer) (v : bool) : transfer :=
-  mkT (t_id t) (t_kind t) (t_nsubs t) (t_raises t) (t_registered t) (t_exc t) (t_crt t)
+  mkT (t_id t) (t_kind t) (t_nsubs t) (t_raises t) (t_qfail t) (t_registered t) (t_exc t) (t_crt t)
       (t_on_done_ran t) (t_subs_done t) (t_releases t) v (t_temp t).
 Definition set_temp (t : transfer) (v : tempstate) : transfer :=
-  mkT (t_id t) (t_kind t) (t_nsubs t) (t_raises t) (t_registered t) (t_exc t) (t_crt t)
+  mkT (t_id t) (t_kind t) (t_nsubs t) (t_raises t) (t_qfail t) (t_registered t) (t_exc t) (t_crt t)
       (t_on_done_ran t) (t_subs_done t) (t_releases t) (t_after t) v.
 
 (** ---- the composed on_done list (get_crt_callback / invoke_all_callbacks) *)
@@ -164,6 +165,7 @@ Inductive result :=
 | RSubmitted        (* submit returned a future *)
 | RWouldBlock       (* submit blocks in semaphore.acquire(): nothing happened *)
 | RRaised           (* submit raised: a subscriber's exception escaped the except-path *)
+| RResolved         (* the CRT resolved finished_future; on_done not yet called *)
 | RCompleted        (* the CRT finished the request; on_done returned *)
 | RCallbackRaised   (* ... on_done raised into the CRT (a subscriber's on_done) *)
 | RInvalid          (* no such pending request *)
@@ -173,20 +175,36 @@ Inductive result :=
 Definition norm_raises (nsubs : nat) (raises : bool) : bool :=
   raises && negb (nsubs =? 0)%nat.
 
-Definition new_transfer (id : Z) (k : kind) (nsubs : nat) (raises : bool) : transfer :=
-  mkT id k nsubs (norm_raises nsubs raises) false false None false 0 0 false TAbsent.
+(** Where a submission fails, all inside the try block and AFTER
+    self._semaphore.acquire(), which is its first statement:
+    a subscriber's on_queued raises; building the make_request arguments raises
+    (serializer, get_file_size of a missing upload source); make_request raises. *)
+Inductive failpoint := NoFail | FailQueued | FailArgs | FailMakeRequest.
+
+Definition is_fail (f : failpoint) : bool :=
+  match f with NoFail => false | _ => true end.
+
+(** "the first subscriber's on_queued raises" needs a subscriber *)
+Definition norm_qfail (nsubs : nat) (f : failpoint) : bool :=
+  match f with FailQueued => negb (nsubs =? 0)%nat | _ => false end.
+
+Definition new_transfer (id : Z) (k : kind) (nsubs : nat) (raises qfail : bool) : transfer :=
+  mkT id k nsubs (norm_raises nsubs raises) qfail false false None false 0 0 false TAbsent.
 
 Definition queued_evs (n : nat) : list ev := map EvQueued (seq 0 n).
 
-(** _submit_transfer.  [fails]: something between on_queued and the return of
-    make_request raises an Exception (serializer, get_file_size, make_request). *)
-Definition submit (k : kind) (nsubs : nat) (raises fails : bool) (s : state)
+(** on_queued calls made: all, or only the first one when it raised. *)
+Definition queued_part (t : transfer) : list ev :=
+  if t_qfail t then [EvQueued 0] else queued_evs (t_nsubs t).
+
+(** _submit_transfer. *)
+Definition submit (k : kind) (nsubs : nat) (raises : bool) (f : failpoint) (s : state)
   : state * result :=
   if permits s <=? 0 then (s, RWouldBlock) else
   let i := length (transfers s) in
-  let t0 := new_transfer (next_id s) k nsubs raises in
-  let pre := EvAcquire :: queued_evs nsubs in
-  if fails then
+  let t0 := new_transfer (next_id s) k nsubs raises (norm_qfail nsubs f) in
+  let pre := EvAcquire :: queued_part t0 in
+  if is_fail f then
     match run_on_done false Err (set_exc t0 true) with
     | (t1, evs, true) =>
         (* the subscriber's exception leaves _submit_transfer: the coordinator is
@@ -217,25 +235,46 @@ Definition norm_outcome (k : kind) (o : outcome) : outcome :=
   | _, _ => o
   end.
 
-(** The CRT finishes request [i]: finished_future resolved, then on_done. *)
-Definition complete (i : nat) (o : outcome) (s : state) : state * result :=
+(** First half of the CRT's _on_finish: finished_future gets its result. *)
+Definition resolve (i : nat) (o : outcome) (s : state) : state * result :=
   match nth_error (transfers s) i with
   | None => (s, RInvalid)
   | Some t =>
       if has_pending_request t then
-        let o' := norm_outcome (t_kind t) o in
-        match run_on_done true o' (set_crt t (Some o')) with
-        | (t1, evs, raised) =>
-            (mkS (permits s + sem_delta evs) (next_id s)
-                 (set_nth i t1 (transfers s)) (log s ++ tag i evs),
-             if raised then RCallbackRaised else RCompleted)
-        end
+        (mkS (permits s) (next_id s)
+             (set_nth i (set_crt t (Some (norm_outcome (t_kind t) o))) (transfers s)) (log s),
+         RResolved)
       else (s, RInvalid)
   end.
 
+(** Second half: on_done(error=...) with the composed callback list. *)
+Definition deliver (i : nat) (s : state) : state * result :=
+  match nth_error (transfers s) i with
+  | None => (s, RInvalid)
+  | Some t =>
+      match t_crt t with
+      | None => (s, RInvalid)
+      | Some o =>
+          if t_on_done_ran t then (s, RInvalid) else
+          match run_on_done true o t with
+          | (t1, evs, raised) =>
+              (mkS (permits s + sem_delta evs) (next_id s)
+                   (set_nth i t1 (transfers s)) (log s ++ tag i evs),
+               if raised then RCallbackRaised else RCompleted)
+          end
+      end
+  end.
+
+(** The CRT finishes request [i]: both halves, back to back. *)
+Definition complete (i : nat) (o : outcome) (s : state) : state * result :=
+  match resolve i o s with
+  | (s1, RResolved) => deliver i s1
+  | (s1, r) => (s1, r)
+  end.
+
 (** _cancel_transfers: coordinator.cancel() for every coordinator that is not
-    done(); a no-op without a request; the stub CRT delivers the cancellation
-    at once. *)
+    done() (a resolved finished_future counts as done); a no-op without a
+    request; the stub CRT delivers the cancellation at once. *)
 Definition cancellable (t : transfer) : bool :=
   t_registered t && has_pending_request t.
 
@@ -279,14 +318,18 @@ Definition shutdown (cancel : bool) (s : state) : state * result :=
   end.
 
 Inductive op :=
-| OSubmit (k : kind) (nsubs : nat) (raises fails : bool)
+| OSubmit (k : kind) (nsubs : nat) (raises : bool) (f : failpoint)
 | OComplete (i : nat) (o : outcome)
+| OResolve (i : nat) (o : outcome)
+| ODeliver (i : nat)
 | OShutdown (cancel : bool).
 
 Definition step (s : state) (o : op) : state * result :=
   match o with
   | OSubmit k n r f => submit k n r f s
   | OComplete i oc => complete i oc s
+  | OResolve i oc => resolve i oc s
+  | ODeliver i => deliver i s
   | OShutdown c => shutdown c s
   end.
 
